@@ -173,7 +173,13 @@ def r_user_coroutine_uses(ctx: Ctx, rule: str):
 
     for f in ctx.pool_functions():
         sc = ctx.an.scope(f)
-        check(f, {name for name in sc.defs if (sc.name_ty(name) is not None and sc.name_ty(name).head in ("UserValue", "internals.helpers._R"))})
+        def pkg_coroutine(name: str) -> bool:
+            # `c = self._helper(...)` with an async package function: the coroutine of package code, not the user's
+            vals = ctx.vals.bindings(f, name)
+            return bool(vals) and all(isinstance(strip_cast(v), ast.Call) and sc.callee(strip_cast(v)).kind == "pkg" and sc.callee(strip_cast(v)).targets
+                                      and all(t.is_async for t in sc.callee(strip_cast(v)).targets) for v in vals)
+
+        check(f, {name for name in sc.defs if (sc.name_ty(name) is not None and sc.name_ty(name).head in ("UserValue", "internals.helpers._R")) and not pkg_coroutine(name)})
     rep.floor(rule, "uses of user coroutines in spawners", uses[0], 3)
 
 
@@ -638,6 +644,9 @@ def _forgotten_were_gathered(ctx: Ctx, f: FuncInfo, copies: List[Node], eff) -> 
             for nm in [x.id for x in ast.walk(a) if isinstance(x, ast.Name)]:
                 if nm in sc.defs and eff.path in _local_sources(ctx, G.func, G.env, nm):
                     return True
+            # a display / expression drawing from the registry in place: gather(*{**self._a, **self._b}.values())
+            if p is None and eff.path in expr_sources(ctx, G.func, G.env, a.value if isinstance(a, ast.Starred) else a):
+                return True
         return False
 
     good = [G for G in gathers if covers(G)]
